@@ -426,6 +426,9 @@ impl<'a> IrCodegen<'a> {
             inner.set_needs_tokio(self.needs_tokio);
             inner.set_needs_axum(self.needs_axum);
             inner.set_external_rust_functions(self.external_rust_functions.clone());
+            if self.test_mode {
+                inner.set_test_function(self.test_function.clone());
+            }
             Ok(svc.emit_program(&ir_program)?)
         } else {
             let mut emitter = IrEmitter::new(&unified_registry);
@@ -438,6 +441,9 @@ impl<'a> IrCodegen<'a> {
             emitter.set_needs_tokio(self.needs_tokio);
             emitter.set_needs_axum(self.needs_axum);
             emitter.set_external_rust_functions(self.external_rust_functions.clone());
+            if self.test_mode {
+                emitter.set_test_function(self.test_function.clone());
+            }
             Ok(emitter.emit_program(&ir_program)?)
         }
     }
